@@ -438,7 +438,13 @@ func (c *Ctx) checkReloadCoverage() {
 	topicsGet := c.E().storeIface("TopicsPersistenceInterface", "Get")
 	grp := c.konst("server/store/types", "TopicCatGrp")
 	catF := c.E().topicField("cat")
-	for _, fn := range c.funcsCalling(topicsGet, "server") {
+	tg := c.getterCallers(topicsGet, "server")
+	var tgFns []*ssa.Function
+	for fn := range tg {
+		tgFns = append(tgFns, fn)
+	}
+	sort.Slice(tgFns, func(i, j int) bool { return fk(tgFns[i]) < fk(tgFns[j]) })
+	for _, fn := range tgFns {
 		// the group-topic loader: stores TopicCatGrp into Topic.cat
 		isGrpLoader := false
 		for _, st := range core.StoresToField(fn, catF) {
